@@ -38,6 +38,7 @@ def gen_config(rng, idx, faults=True, nclients_max=1, allow_raw=True):
     else:
         cfg["fault"] = None
     cfg["rseed"] = rng.getrandbits(32)
+    cfg["pred"] = rng.random() < 0.25       # an earlier session used (and abandoned) the slot first
     return cfg
 
 
@@ -127,6 +128,39 @@ def client_tun_ip(k, name):
     return None
 
 
+def predecessor(sim, rng, server_ip=None):
+    """An earlier session on the same server that negotiates non-default settings, leaves packets queued for itself
+    and then vanishes; more than 60 s later its slot is free again.  Whatever a later session observes must not
+    depend on it (state that survives slot reuse is a classic source of wedges and leaks)."""
+    from . import mclient
+    k = sim.k
+    mc = mclient.ModelClient("10.53.4.1", (server_ip or scen.SERVER_IP, 53), sim.domain, sim.password, random.Random(rng.getrandbits(32)),
+                             qtype=rng.choice([proto.T_TXT, proto.T_TXT, proto.T_CNAME, proto.T_MX, proto.T_NULL]))
+    k.add_actor(mc.ip, mc)
+    if not mc.connect():
+        return None
+    mc.switch_codec(rng.choice(list(proto.CODECS.values())))
+    if mc.qtype == proto.T_TXT:
+        mc.option(rng.choice([b"s", b"u", b"v", b"r"]))
+    elif mc.qtype in (proto.T_CNAME, proto.T_MX):
+        mc.option(rng.choice([b"s", b"u", b"v"]))
+    if rng.random() < 0.6:
+        mc.option(b"l")
+    mc.set_frag(rng.choice([20, 50, 200]))
+    srv_tun = sim.tun_net.split("/")[0]
+    # a few packets arrive for it; it fetches the beginning of the first one and is never heard of again
+    for i in range(rng.randint(2, 4)):
+        k.offer_tun("srv", proto.make_frame(srv_tun, mc.tun_ip, (0xDEAD << 20) | i, rng.choice([200, 600]), "random", rng), None)
+        k.run(k.now + 2000)
+    if rng.random() < 0.7:
+        mc.ping(20000)
+    if rng.random() < 0.5:
+        mc.up_seq = (mc.up_seq + 1) & 7
+        mc.query(mc.data_labels(mc.up_seq, 0, 0, b"half a packet that is never completed"))
+    k.run(k.now + rng.choice([61, 62, 65, 90, 200]) * US)
+    return mc
+
+
 def run_tunnel(tag, cfg, seed, plan):
     """plan(t, sim, rng) is called once the clients are in tunnel mode; it schedules offers/faults and
     returns the virtual end time. Returns a Tunnel (caller must call t.sim.close())."""
@@ -145,6 +179,9 @@ def run_tunnel(tag, cfg, seed, plan):
     if not t.srv.alive():
         t.why = "server-died-at-start:" + sim.health(t.srv)
         return t
+    t.pred = None
+    if cfg.get("pred"):
+        t.pred = predecessor(sim, random.Random(cfg["rseed"] ^ 0x5EED))
     t.relay = sim.fault_relay(fault_profile(dict(cfg, fault=None), rng, 0, 0), seed=rng.getrandbits(32))
     t.clients = []
     for i in range(cfg["nclients"]):
